@@ -429,10 +429,65 @@ func e2eRegen(model map[string]interface{}) (bool, string) {
 	if rc != 0 || string(got) != string(want) {
 		dev("a run started from another working directory differs (exit %d): %s", rc, clip(out0, 200))
 	}
+	// a run killed between creating its temporary file and renaming it leaves that file behind:
+	// whatever it is called, the next run repairs the output
+	var out string
+	dir = filepath.Join(tmp, "leftover")
+	writeModule(dir, e2eSetup)
+	for _, n := range []string{"setup.gen.go.tmp", ".setup.gen.go.tmp", "setup.gen.go~", "setup.gen.tmp"} {
+		os.WriteFile(filepath.Join(dir, n), []byte("package e2e\n\n// half of an out"), 0644)
+	}
+	rc, out = run(dir, "setup.go")
+	got, _ = os.ReadFile(filepath.Join(dir, "setup.gen.go"))
+	if rc != 0 || string(got) != string(want) {
+		dev("a run next to the leftover temporary file of a killed run differs (exit %d): %s", rc, clip(out, 200))
+	}
+	// the package lives in a sub-directory, the input is given relative to the module root, and the
+	// output path holds a stale file that still names the package's former name
+	dir = filepath.Join(tmp, "subdir")
+	os.MkdirAll(filepath.Join(dir, "conv"), 0755)
+	os.WriteFile(filepath.Join(dir, "go.mod"), []byte("module e2e\n\ngo 1.19\n"), 0644)
+	os.WriteFile(filepath.Join(dir, "conv", "types.go"), []byte(e2eTypes), 0644)
+	os.WriteFile(filepath.Join(dir, "conv", "setup.go"), []byte(e2eSetup), 0644)
+	for _, stale := range []string{"package old\n", "package old\n\nfunc SrcToDst() {}\n"} {
+		os.WriteFile(filepath.Join(dir, "conv", "setup.gen.go"), []byte(stale), 0644)
+		rc, out = run(dir, "conv/setup.go")
+		got, _ = os.ReadFile(filepath.Join(dir, "conv", "setup.gen.go"))
+		if rc != 0 || string(got) != string(want) {
+			dev("input given relative to the module root (conv/setup.go), stale output of a package of another name: exit %d: %s", rc, clip(out, 200))
+		}
+	}
+	// the generated code needs an import the setup file does not have (the import optimiser finds it
+	// in a sibling file); the output path holds the output of an OLDER version of the package, which
+	// imported another package of the same name: the result is that of a run on an empty path
+	dir = filepath.Join(tmp, "imp")
+	for _, v := range []string{"v1", "v2"} {
+		os.MkdirAll(filepath.Join(dir, v, "level"), 0755)
+		os.WriteFile(filepath.Join(dir, v, "level", "level.go"), []byte("package level\n\ntype Level int\n"), 0644)
+	}
+	os.WriteFile(filepath.Join(dir, "go.mod"), []byte("module e2e\n\ngo 1.19\n"), 0644)
+	os.WriteFile(filepath.Join(dir, "types.go"), []byte("package e2e\n\nimport \"e2e/v2/level\"\n\ntype Src struct{ Lv int }\n\ntype Dst struct{ Lv level.Level }\n"), 0644)
+	os.WriteFile(filepath.Join(dir, "setup.go"), []byte("//go:build convergen\n\npackage e2e\n\n// :typecast\ntype Convergen interface {\n\tToDst(*Src) *Dst\n}\n"), 0644)
+	if rc, out = run(dir, "setup.go"); rc != 0 {
+		fmt.Fprintf(&log, "(import scenario skipped: the reference run fails: %s)\n", clip(out, 200))
+	} else {
+		fresh, _ := os.ReadFile(filepath.Join(dir, "setup.gen.go"))
+		if !strings.Contains(string(fresh), "e2e/v2/level") {
+			fmt.Fprintf(&log, "(import scenario skipped: the fresh output does not import e2e/v2/level)\n")
+		} else {
+			os.WriteFile(filepath.Join(dir, "setup.gen.go"), []byte(strings.ReplaceAll(string(fresh), "e2e/v2/level", "e2e/v1/level")), 0644)
+			rc, out = run(dir, "setup.go")
+			got, _ = os.ReadFile(filepath.Join(dir, "setup.gen.go"))
+			fmt.Fprintf(&log, "output path holds the output of an older package version (other import of the same name) -> exit %d\n", rc)
+			if rc != 0 || string(got) != string(fresh) {
+				dev("a stale output importing another package of the same name changes the result (exit %d): %s", rc, clip(out, 200))
+			}
+		}
+	}
 	// -out naming the input file
 	dir = filepath.Join(tmp, "outin")
 	writeModule(dir, e2eSetup)
-	rc, out := run(dir, "-out", "setup.go", "setup.go")
+	rc, out = run(dir, "-out", "setup.go", "setup.go")
 	after, _ := os.ReadFile(filepath.Join(dir, "setup.go"))
 	if rc == 0 || string(after) != e2eSetup {
 		dev("-out naming the input file: exit %d, input file modified=%v: %s", rc, string(after) != e2eSetup, clip(out, 200))
